@@ -345,6 +345,8 @@ func runC07(c *Ctx) {
 	c07OverrideKeys(c, pk, pa, nodeIface, termIface)
 	c07WriterCoverage(c, pk, nodeIface)
 	c07Comparators(c, pk)
+	c07FirstOutputNoBlank(c, pk)
+	c07CommentTokens(c, pk)
 	c07PreSortRead(c, pk)
 	c07ScopedFlagRestored(c)
 	c07CompactOnlyScalars(c)
